@@ -181,7 +181,7 @@ def _callers_validate(E, R, rule, fn, hb, sname):
     for hc, c in callers:
         a = _try_inner(c["args"][pos[0]])
         if local_name(a) and pos[1] is not None:
-            ini_ = let_init(hc["body"], local_name(a))
+            ini_ = a.get("_init") if a.get("k") == "Path" and "_init" in a else let_init(hc["body"], local_name(a))
             if ini_ is not None:
                 a = _try_inner(ini_)
         good = False
@@ -191,7 +191,7 @@ def _callers_validate(E, R, rule, fn, hb, sname):
                 good = True
                 whys.append("%s(..)?" % last_seg(norm(a["callee"])))
             elif a.get("k") == "Tup":
-                el = strip(a["es"][pos[1]])
+                el = deref(a["es"][pos[1]])
                 if local_name(el) and let_init(hc["body"], local_name(el)) is not None:
                     el = strip(let_init(hc["body"], local_name(el)))
                 if el.get("k") == "Call" and norm(el.get("callee", "")) == "lex::span":
@@ -384,13 +384,13 @@ def rule_radix(E, R):
                             ia = [i for i, x in enumerate(st_) if x.get("k") == "SLet" and x["pat"].get("name") == an and "init" in x and
                                   sem_peel(x["init"]).get("m") == "as_str"]
                             ic = [i for i, x in enumerate(st_) if x.get("k") == "SLet" and x["pat"].get("name") == cn and "init" in x and
-                                  any(y["m"] == "next" for y in exprs(x["init"], "MethodCall"))]
+                                  any(y["m"] == "next" for y in exprs_deep(x["init"], "MethodCall"))]
                             if an and cn and ia and ic and ia[0] < ic[0]:
                                 ok = True
                         # (b) the matched char is the first one of `<arg>.chars()`: the argument still starts at that char
                         c_init = let_init(hb_["body"], cn) if cn else None
                         if an and c_init is not None:
-                            nx = [y for y in exprs(c_init, "MethodCall") if y["m"] == "next"]
+                            nx = [y for y in exprs_deep(c_init, "MethodCall") if y["m"] == "next"]
                             it_init = let_init(hb_["body"], local_name(nx[0]["recv"])) if nx and local_name(nx[0]["recv"]) else None
                             if it_init is not None:
                                 ii = sem_peel(it_init)
